@@ -1,7 +1,161 @@
-From Coq Require Import List String Bool Arith ZArith.
-From EKW Require Import Graph.GStore Graph.Export Graph.ExportCheck.
+(* C12 -- serialising a graph and reading it back gives an equal graph
+   (dict, JSON, Cascade file), for every graph with unique node names, whether or not
+   its terminal nodes have outputs.
+
+   Model: Graph/GStore.v (Node, Output, Graph.nodes), Graph/Export.v (serialise,
+   deserialise, to_json/from_json, Graph.__eq__, Cascade.serialise/from_serialised) as of
+   the repository commits 6965c06 and a846c94.  Proofs: Graph/ExportProofs.v, ExportTopo.v.
+
+   Hypotheses of the theorems, in words:
+     static_order sound/complete : graphlib returns a topological order of exactly the
+                     names that occur whenever one exists (else CycleError);
+     wf g          : inputs point to existing outputs of earlier-created nodes (acyclic),
+                     input names of a node are distinct (a dict), sinks exist;
+     unique_names g: the names of graph.nodes() are distinct;
+     kw_ok g       : no input is called self/name/outputs/payload, i.e. every input can be
+                     given to Node(...) as a keyword (see the _refuted theorem);
+     payload_through f g : every payload p satisfies  not (f p != p);  f = pser for the
+                     dict and file paths (payload.serialise() or the payload itself),
+                     f = jp after pser for JSON (payloads JSON represents faithfully).
+   No bound on the number of nodes, outputs or inputs. *)
+From Coq Require Import List String Bool Arith ZArith Lia.
+From EKW Require Import Graph.GStore Graph.Export Graph.ExportProofs Graph.ExportCheck Graph.ExportTopo.
 Import ListNotations.
 Open Scope string_scope.
+Open Scope list_scope.
 
-Example C12_smoke : roundtrip_with kahn true (mkGraph [mkNode "a" ["0"] None []] [0]) = Ok true.
+(* deserialise(serialise(g)) == g *)
+Theorem C12_roundtrip_partial :
+  forall (P : Type) (peqb : P -> P -> bool) (pser : P -> P) (static_order : deps_t -> res (list string)),
+  (forall deps order, static_order deps = Ok order -> topo_okb deps order = true) ->
+  (forall deps, (exists o, topo_okb deps o = true) -> exists order, static_order deps = Ok order) ->
+  forall g : graph P, wf P g -> kw_ok P g -> unique_names P g -> payload_through P peqb pser g ->
+  exists d g', serialise P pser g = Ok d /\ deserialise P static_order d = Ok g' /\
+               graph_eq P peqb g' g = Ok true.
+Proof. exact roundtrip_dict. Qed.
+
+(* from_json(to_json(g)) == g, for payloads that JSON represents faithfully *)
+Theorem C12_roundtrip_json_partial :
+  forall (P : Type) (peqb : P -> P -> bool) (pser jp : P -> P) (static_order : deps_t -> res (list string)),
+  (forall deps order, static_order deps = Ok order -> topo_okb deps order = true) ->
+  (forall deps, (exists o, topo_okb deps o = true) -> exists order, static_order deps = Ok order) ->
+  forall (J : Type) (dumps : sgraph P -> J) (loads : J -> res (sgraph P)),
+  (forall d, loads (dumps d) = Ok (jsonify P jp d)) ->
+  forall g : graph P, wf P g -> kw_ok P g -> unique_names P g ->
+  payload_through P peqb (fun p => jp (pser p)) g ->
+  exists j g', to_json P pser J dumps g = Ok j /\ from_json P static_order J loads j = Ok g' /\
+               graph_eq P peqb g' g = Ok true.
+Proof. exact roundtrip_json. Qed.
+
+(* Cascade.from_serialised(file written by Cascade(g).serialise)._graph == g *)
+Theorem C12_roundtrip_file_partial :
+  forall (P : Type) (peqb : P -> P -> bool) (pser : P -> P) (static_order : deps_t -> res (list string)),
+  (forall deps order, static_order deps = Ok order -> topo_okb deps order = true) ->
+  (forall deps, (exists o, topo_okb deps o = true) -> exists order, static_order deps = Ok order) ->
+  forall (F : Type) (dill_dump : sgraph P -> F) (dill_load : F -> res (sgraph P)),
+  (forall d, dill_load (dill_dump d) = Ok d) ->
+  forall g : graph P, wf P g -> kw_ok P g -> unique_names P g -> payload_through P peqb pser g ->
+  exists file g', cascade_serialise P pser F dill_dump g = Ok file /\
+                  cascade_from_serialised P static_order F dill_load file = Ok g' /\
+                  graph_eq P peqb g' g = Ok true.
+Proof. exact roundtrip_file. Qed.
+
+(* Graph.nodes() never runs out of the model's fuel, never meets a dangling index, and
+   returns each node once, the sinks included, closed under "is an input of" *)
+Theorem C12_nodes_total :
+  forall (P : Type) (g : graph P),
+  valid_heap P (heap g) -> Forall (fun s => s < List.length (heap g)) (sinks g) ->
+  exists ns, nodes g = Ok ns /\ consistent P (heap g) ns /\ NoDup (map fst ns) /\
+             incl (sinks g) (map fst ns) /\ pclosed P (heap g) (map fst ns) [].
+Proof. exact nodes_ok. Qed.
+
+(* ------------------------------------------------------------------ concrete instances *)
+Ltac idx i H :=
+  do 7 (try (destruct i as [|i]; [simpl in H; try discriminate H; try (injection H as <-) | ]));
+  try (simpl in H; destruct i; discriminate H).
+
+Ltac prove_wf :=
+  constructor;
+  [ intros i nd H; idx i H; simpl; intros p Hp; intuition lia
+  | repeat constructor; simpl; lia
+  | intros i nd H; idx i H; simpl; intros x Hx;
+    repeat (destruct Hx as [<- | Hx]; [eexists; split; [reflexivity | simpl; tauto] | ]); contradiction
+  | intros i nd H; idx i H; simpl; repeat constructor; simpl; intuition discriminate ].
+
+Ltac prove_unique :=
+  intros ns H; vm_compute in H; injection H as <-; simpl; repeat constructor; simpl; intuition discriminate.
+
+(* a graph with a multi-output node, inputs called "data" and "node_factory", payloads,
+   one terminal node without outputs and one terminal node WITH an output *)
+Definition g_ex : graph pv := mkGraph
+  [ mkNode "reader" ["0"] (Some (PInt 1)) [];
+    mkNode "split" ["a"; "b"] (Some (PSeq false [PInt 1; PStr "x"])) [("data", (0, "0"))];
+    mkNode "proc.1" ["0"] None [("x", (1, "a")); ("node_factory", (1, "b"))];
+    mkNode "writer" [] (Some (PStr "w")) [("input", (2, "0"))];
+    mkNode "tail" ["0"] None [("y", (1, "b")); ("z", (0, "0"))] ]
+  [3; 4].
+
+Example C12_nonvacuous :
+  (forall deps order, kahn deps = Ok order -> topo_okb deps order = true) /\
+  (forall deps, (exists o, topo_okb deps o = true) -> exists order, kahn deps = Ok order) /\
+  wf pv g_ex /\ kw_ok pv g_ex /\ unique_names pv g_ex /\
+  payload_through pv pv_eqb pv_ser g_ex /\
+  payload_through pv pv_eqb (fun p => pv_json (pv_ser p)) g_ex /\
+  (exists ns, nodes g_ex = Ok ns /\ List.length ns = 5) /\
+  roundtrip_with kahn true g_ex = Ok true.
+Proof.
+  split; [exact kahn_sound|]. split; [exact kahn_complete|].
+  split; [unfold g_ex; prove_wf|].
+  split; [intros i nd H; unfold g_ex in H; idx i H; simpl; intros k Hk; intuition (subst; discriminate)|].
+  split; [unfold g_ex; prove_unique|].
+  split; [intros i nd p H Hp; unfold g_ex in H; idx i H; simpl in Hp; try discriminate Hp; injection Hp as <-; reflexivity|].
+  split; [intros i nd p H Hp; unfold g_ex in H; idx i H; simpl in Hp; try discriminate Hp; injection Hp as <-; reflexivity|].
+  split; [eexists; split; [vm_compute; reflexivity | reflexivity]|].
+  vm_compute. reflexivity.
+Qed.
+
+(* the JSON hypothesis is needed: a tuple payload comes back as a list and == says False *)
+Example C12_json_unfaithful_payload :
+  let g := mkGraph [mkNode "n" ["0"] (Some (PSeq true [PInt 1])) []] [0] in
+  bind (to_json pv pv_ser (sgraph pv) (fun d => d) g) (fun j =>
+  bind (from_json pv kahn (sgraph pv) (fun d => Ok (jsonify pv pv_json d)) j) (fun g' =>
+  graph_eq pv pv_eqb g' g)) = Ok false.
 Proof. vm_compute. reflexivity. Qed.
+
+(* The side condition kw_ok cannot be dropped: a node that got an input called "payload"
+   by assignment to node.inputs serialises, but deserialise raises TypeError
+   (default_node_factory(name, outputs, payload, **inputs) binds `payload` twice). *)
+Definition g_reserved : graph pv := mkGraph
+  [ mkNode "a" ["0"] None []; mkNode "b" [] None [("payload", (0, "0"))] ] [1].
+
+Theorem C12_roundtrip_any_input_name_refuted :
+  exists g : graph pv, wf pv g /\ unique_names pv g /\ payload_through pv pv_eqb pv_ser g /\
+                       roundtrip_with kahn true g = Err "TypeError".
+Proof.
+  exists g_reserved. split; [unfold g_reserved; prove_wf|].
+  split; [unfold g_reserved; prove_unique|].
+  split; [intros i nd p H Hp; unfold g_reserved in H; idx i H; simpl in Hp; discriminate Hp|].
+  vm_compute. reflexivity.
+Qed.
+
+(* The sink rule before commit 6965c06 (a sink is a node without outputs) loses every
+   terminal node that has an output: the one-node graph comes back empty. *)
+Definition g_single : graph pv := mkGraph [mkNode "a" ["0"] None []] [0].
+
+Theorem C12_sink_rule_before_fix_refuted :
+  exists g : graph pv, wf pv g /\ kw_ok pv g /\ unique_names pv g /\ payload_through pv pv_eqb pv_ser g /\
+                       roundtrip_with kahn false g = Ok false /\ roundtrip_with kahn true g = Ok true.
+Proof.
+  exists g_single. split; [unfold g_single; prove_wf|].
+  split; [intros i nd H; unfold g_single in H; idx i H; simpl; intros k []|].
+  split; [unfold g_single; prove_unique|].
+  split; [intros i nd p H Hp; unfold g_single in H; idx i H; simpl in Hp; discriminate Hp|].
+  split; vm_compute; reflexivity.
+Qed.
+
+Print Assumptions C12_roundtrip_partial.
+Print Assumptions C12_roundtrip_json_partial.
+Print Assumptions C12_roundtrip_file_partial.
+Print Assumptions C12_nodes_total.
+Print Assumptions C12_roundtrip_any_input_name_refuted.
+Print Assumptions C12_sink_rule_before_fix_refuted.
